@@ -79,6 +79,13 @@ def find_wait_loop(project: Project) -> Tuple[FuncInfo, ast.AST, ast.Assign, Fun
         if not f.module.name.startswith("chuk_mcp.protocol.messages"):
             continue  # the wait loop lives in the request layer (it may have been moved to a sibling module)
         streams = set(f.params()) | ({rparams[0]} if f is root or f.parent is root else set())
+        # a local that only ever names one of them (`reader = read_stream`) is that stream
+        for _ in range(3):
+            for a_ in walk_local(f.node):
+                if isinstance(a_, ast.Assign) and len(a_.targets) == 1 and isinstance(a_.targets[0], ast.Name) and isinstance(a_.value, ast.Name) and a_.value.id in streams:
+                    t_ = a_.targets[0].id
+                    if sum(1 for x_ in walk_local(f.node) if isinstance(x_, ast.Name) and x_.id == t_ and isinstance(x_.ctx, ast.Store)) == 1:
+                        streams.add(t_)
         for n in walk_local(f.node):
             if isinstance(n, (ast.While, ast.For, ast.AsyncFor)):
                 for a in walk_local(n):
